@@ -18,6 +18,7 @@ import (
 	"fmt"
 	"hash/fnv"
 	"os"
+	"runtime/debug"
 	"runtime/pprof"
 	"sort"
 	"strings"
@@ -140,8 +141,30 @@ func hashInts(h uint64, vs ...int) uint64 {
 	return h
 }
 
-// runCase pushes the frames of w through one encoder/decoder pair and applies the oracle.
+type failure struct {
+	key, what string
+	w         witness
+}
+
+// runCase runs one sequence; a failing sequence of several frames is reduced to the failing frame
+// alone when that fails in the same way (smaller witness), then reported.
 func runCase(f *codecs.Format, w *witness, st *stats) {
+	fl := tryCase(f, w, st)
+	if fl == nil {
+		return
+	}
+	if len(w.Frames) > 1 {
+		w1 := *w
+		w1.Frames = [][]int{w.Frames[fl.w.Frame]}
+		if f1 := tryCase(f, &w1, newStats(f.Name)); f1 != nil && f1.key == fl.key {
+			fl = f1
+		}
+	}
+	run.Violation(fl.key, fl.what, fl.w)
+}
+
+// tryCase pushes the frames of w through one encoder/decoder pair and applies the oracle.
+func tryCase(f *codecs.Format, w *witness, st *stats) (res *failure) {
 	p := w.Params
 	fail := func(class, what string, fi, pi int, extra func(*witness)) {
 		ww := *w
@@ -156,7 +179,7 @@ func runCase(f *codecs.Format, w *witness, st *stats) {
 		if extra != nil {
 			extra(&ww)
 		}
-		run.Violation(f.Name+"/"+class, fmt.Sprintf("%s (limit %d, params %s): %s", f.Name, w.Max, p.Label, what), ww)
+		res = &failure{f.Name + "/" + class, fmt.Sprintf("%s (limit %d, params %s): %s", f.Name, w.Max, p.Label, what), ww}
 	}
 	enc, err := f.NewEncoder(p, codecs.EncConf{PayloadMaxSize: w.Max, SSRC: 0x9dbb7812, InitialSequenceNumber: w.SeqStart, PayloadType: 96})
 	if err != nil {
@@ -227,8 +250,12 @@ func runCase(f *codecs.Format, w *witness, st *stats) {
 		if class != "single" {
 			h := hashInts(hashStr(f.Name+"|"+p.Label), w.Max)
 			st.shapes[hashInts(hashStr(class)^h, nUnits, len(pkts))] = struct{}{}
-			for _, u := range want {
-				h = hashInts(h, len(u))
+			if f.Blob && f.Multi(p) {
+				h = hashInts(h, w.Frames[fi]...) // sub-unit sizes of the blob
+			} else {
+				for _, u := range want {
+					h = hashInts(h, len(u))
+				}
 			}
 			st.tuples[h] = struct{}{}
 		}
@@ -331,9 +358,12 @@ func runCase(f *codecs.Format, w *witness, st *stats) {
 		st.c["roundtrips-ok:"+f.Name]++
 	}
 	st.c["sequences:"+f.Name]++
-	if run.WantSample() && len(w.Frames) > 1 {
-		run.Sample(w)
+	if len(w.Frames) > 2 && w.Max >= 16 && w.ContentSeed%97 == 0 && run.WantSample() {
+		ws := *w
+		ws.Frames = append([][]int(nil), w.Frames...)
+		run.Sample(ws)
 	}
+	return nil
 }
 
 // seqStarts rotate so that runs wrap at different places.
@@ -347,6 +377,7 @@ type job struct {
 
 func main() {
 	run = vlib.Start("C03", "exploration")
+	debug.SetGCPercent(400) // allocation-heavy, tiny live heap
 	if pf := os.Getenv("VERIF_PPROF"); pf != "" {
 		fh, _ := os.Create(pf)
 		_ = pprof.StartCPUProfile(fh)
